@@ -1,5 +1,6 @@
 import AnyTLS.Props.C09
 #print axioms AnyTLS.C09.drain_releases
+#print axioms AnyTLS.C09.drain_needs_no_lock
 #print axioms AnyTLS.C09.drain_closes_readers
 #print axioms AnyTLS.C09.closeInv_micro
 #print axioms AnyTLS.C09.inv9_init
